@@ -100,6 +100,7 @@ def handle (j : Json) : Json :=
       | "delete" => pure (Guard.deleteRaises (b "delete_from") (b "has_selects") (b "has_update"))
       | "into" => pure (Guard.intoRaises (b "has_insert"))
       | "top" => pure (Guard.topRaises (b "is_int") (← (fld j "value").getInt?) (b "percent"))
+      | "returning" => pure (Guard.returningRaises (b "has_dml") (← nats "targets") (← nats "field_tables") (← nats "known"))
       | "once" => pure (b "already")
       | g => throw s!"guard {g}"
     match r with
